@@ -179,20 +179,31 @@ def main():
             except Exception as e:
                 run.violation("sort(edge_start=k) keeps rows < k (with metadata) and sorts the rest", dict(desc, edge_start=st),
                               "%s: %s" % (type(e).__name__, e), "rows readable")
-        # (5) deduplicate_sites
+        # (5) deduplicate_sites: duplicate a random position (often preceded by sites without mutations)
         if t.sites.num_rows:
             w = t.copy()
-            dup = w.sites[0]
+            if run.rng.random() < 0.6:
+                keep_from = run.rng.randrange(w.sites.num_rows)
+                w.mutations.clear()
+                for m in t.mutations:
+                    if m.site >= keep_from:
+                        w.mutations.append(m.replace(parent=-1))
+            jd = run.rng.randrange(w.sites.num_rows)
+            dup = w.sites[jd]
             sid = w.sites.append(dup.replace(metadata=b"dup"))
-            w.mutations.add_row(site=sid, node=0, derived_state="Z")
+            w.mutations.add_row(site=sid, node=0, derived_state="Z", metadata=b"on-dup")
             w.sort()
-            nm = w.mutations.num_rows
-            w.deduplicate_sites()
-            if w.sites.num_rows != t.sites.num_rows or w.mutations.num_rows != nm:
-                run.violation("deduplicate_sites merges equal positions and keeps every mutation", desc,
-                              (w.sites.num_rows, w.mutations.num_rows), (t.sites.num_rows, nm))
-            elif sorted(float(p) for p in w.sites.position) != sorted(float(p) for p in t.sites.position):
-                run.violation("deduplicate_sites keeps the positions", desc, list(w.sites.position), list(t.sites.position))
+            before = sorted((float(w.sites[m.site].position), int(m.node), m.derived_state, m.metadata) for m in w.mutations)
+            npos = sorted(set(float(p_) for p_ in w.sites.position))
+            try:
+                w.deduplicate_sites()
+                after = sorted((float(w.sites[m.site].position), int(m.node), m.derived_state, m.metadata) for m in w.mutations)
+            except Exception as e:
+                after = "%s: %s" % (type(e).__name__, e)
+            if after != before:
+                run.violation("deduplicate_sites keeps every mutation at its position with its content", dict(desc, duplicated=jd), after, before)
+            elif sorted(float(p_) for p_ in w.sites.position) != npos:
+                run.violation("deduplicate_sites keeps one site per position", desc, list(w.sites.position), npos)
             else:
                 first = [s_ for s_ in w.sites if s_.position == dup.position][0]
                 if first.metadata != dup.metadata or first.ancestral_state != dup.ancestral_state:
